@@ -118,8 +118,38 @@ fn emit(w: &mut NdWriter, id: String, text: &str, want: &[AEv], stats: &mut Stat
     true
 }
 
+/// "never a stale value": the aliased document followed, in the same stream, by a document that only USES its anchor names.
+/// The record describes the second document alone (its aliases have no definition there), so the specification requires an
+/// error; what the streaming iterator yields for it is the observation.
+fn emit_stale(w: &mut NdWriter, id: String, text: &str, names: &[String], stats: &mut Stats) {
+    let used: Vec<&String> = names.iter().filter(|n| !n.is_empty() && text.contains(&format!("&{n}"))).collect();
+    if used.is_empty() {
+        return;
+    }
+    // one stream per anchor name: a second document using several names would fail on the first unknown one
+    for (k, name) in used.iter().enumerate() {
+        let second = format!("[*{name}]");
+        let stream = if text.trim_end().contains('\n') { format!("---\n{}\n--- {second}\n", text.trim_end()) } else { format!("--- {}\n--- {second}\n", text.trim_end()) };
+        let raw = vec![AEv::new("SS", 0, "", "p", ""), AEv::new("AL", 1, "", "p", ""), AEv::new("SE", 0, "", "p", "")];
+        let s2 = stream.clone();
+        let obs = match guarded(move || {
+            let mut c = std::io::Cursor::new(s2.into_bytes());
+            let items: Vec<Result<Tree, serde_saphyr::Error>> = serde_saphyr::read::<_, Tree>(&mut c).collect();
+            items
+        }) {
+            Ok(items) if items.len() >= 2 => match &items[1] { Ok(t) => t.0.clone(), Err(_) => N::err() },
+            // the first document failed or the stream ended early: nothing is claimed about the second
+            Ok(_) => continue,
+            Err(_) => N::err(),
+        };
+        stats.stale += 1;
+        w.put(&Rec { id: format!("{id}{k}"), yaml: &stream, raw, obs, exp: vec![], yaml_exp: String::new(), obs_exp: N::err() });
+    }
+}
+
 #[derive(Default, Serialize)]
 pub struct Stats {
+    pub stale: usize,
     pub cases: usize,
     pub records: usize,
     pub nontrivial: usize,
@@ -152,6 +182,9 @@ pub fn run(args: &Args) -> i32 {
             let flow = render_flow(&nodes[0], &nm);
             let block = render_block(&nodes[0], &nm);
             for (tag, text) in [("f", &flow), ("b", &block)] {
+                if has_alias || c.doc.iter().any(|e| e.a != 0) {
+                    emit_stale(&mut w, format!("c{i}-{tag}-stale"), text, &names, &mut stats);
+                }
                 if emit(&mut w, format!("c{i}-{tag}"), text, &c.doc, &mut stats) {
                     if has_alias && seen.insert(text.clone()) {
                         stats.nontrivial += 1;
